@@ -8,6 +8,12 @@ import PyamgV.Proofs.C11Thm
 import PyamgV.Proofs.C11Mod
 import PyamgV.Proofs.C11Air
 import PyamgV.Proofs.C11Refine
+import PyamgV.Proofs.ExtC11RefineOnePoint
+import PyamgV.Proofs.ExtC11RefineFF
+import PyamgV.Proofs.ExtC11RefineDirect
+import PyamgV.Proofs.ExtC11RefineClassicalRows
+import PyamgV.Proofs.ExtC11RefineMod
+import PyamgV.Proofs.ExtC11RefineAir
 import Mathlib.Algebra.Order.Ring.Rat
 import Mathlib.Algebra.Field.Rat
 
@@ -115,6 +121,66 @@ restate air_neighbourhood_iff := PyamgV.C11M.nbrF_iff
 restate air_row_spec := PyamgV.C11M.airRow_spec
 restate air_ra_entry := PyamgV.C11M.raEntry_eq
 
+
+/-! ## extension E6: the array models ARE the proof-side operators
+
+`C11X.rowAt da db Pp Pj Px i` is row `i` of a CSR triple (entries `Pp[i] .. Pp[i+1]-1`).  All
+statements are for valid 0/1 splittings and strength matrices whose columns are below `n` (what
+the correspondence generator produces).  Where the C++ divides by zero the array models return
+`none`; the `…OptRow` rows are the proof-side rows with exactly that guard, and the
+`…_guarded_rows` theorems say: same coarse columns, and the same weight wherever the model
+returns a value. -/
+
+/-- `one_point_interpolation` (array model `C11M.onePoint`): `Pp` is the prefix sum of the row
+lengths of `onePointP`, and row `i` of `(Pp, Pj, Px)` is row `i` of `onePointP` -/
+restate one_point_array_refines := PyamgV.C11X.onePoint_refines
+
+/-- `remove_strong_FF_connections` (array model `C11M.removeFF`), entry by entry: position `jj` of
+row `row` is zeroed iff `row` and its column are F-points and the kernel's `dependence` flag is
+off, and keeps its value otherwise (CSR with monotone row pointer) -/
+restate remove_FF_array_entry := PyamgV.C11X.removeFF_entry
+/-- the kernel's `dependence` flag is the proof-side `commonC` of the two strength rows -/
+restate remove_FF_dependence_is_commonC := PyamgV.C11X.ffDep_eq_commonC
+/-- F-row after `remove_strong_FF_connections` + `eliminate_zeros` = `removeFFRow` + `eliminate_zeros` -/
+restate remove_FF_array_row := PyamgV.C11X.removeFF_row
+/-- … = `removeFFRow` itself when the strength row has no stored zeros -/
+restate remove_FF_array_row_nz := PyamgV.C11X.removeFF_row_nz
+
+/-- `rs_direct_interpolation_pass1/2` (array model `N.directInterp`): row pointer = prefix sums of
+the row lengths of `directP`; row `i` = guarded row `directPOptRow` -/
+restate direct_array_refines := PyamgV.C11X.directInterp_refines
+/-- the guarded rows have the columns of `directP` and its weights wherever defined -/
+restate direct_guarded_rows := PyamgV.C11X.directPOptRow_forall₂
+/-- nothing is guarded away when the two denominators are non-zero -/
+restate direct_guard_defined := PyamgV.C11X.directRowOpt_defined
+
+/-- `rs_classical_interpolation_pass2` (array model `C11M.classicalPass2`, either variant): under a
+row pointer that is the prefix sum of the row lengths (as pass 1 produces, `classicalPass1_off`),
+row `i` is the list of entries the kernel computes for row `i`, columns renumbered -/
+restate classical_pass2_array_rows := PyamgV.C11X.classicalPass2_rows
+/-- `modified = false`: row `i` of the array models of pass 1 + pass 2 = guarded row of `classicalP` -/
+restate classical_array_refines := PyamgV.C11X.classicalPass2_refines
+restate classical_guarded_rows := PyamgV.C11X.classicalPOptRow_forall₂
+/-- no division by zero under the non-degeneracy hypotheses of `classical_rowsum` -/
+restate classical_guard_defined := PyamgV.C11X.classicalPOptRow_defined
+
+/-- `modified = true`: row `i` of the array models of pass 1 + pass 2 on the strength matrix handed to
+the kernel = guarded row body `classicalRowM` -/
+restate modified_array_refines := PyamgV.C11X.classicalPass2_refines_modified
+restate modified_row_guarded := PyamgV.C11X.cOptRowM_forall₂
+restate modified_row_guard_defined := PyamgV.C11X.cOptRowM_defined
+/-- when that strength matrix has the rows `removeFFRow`, these are the rows of `classicalModP` -/
+restate modified_guarded_rows := PyamgV.C11X.classicalModPOptRow_forall₂
+/-- end to end: array model of `remove_strong_FF_connections`, `eliminate_zeros`, array models of
+pass 1 / pass 2 (`modified = true`) vs `classicalModP` on the original strength matrix -/
+restate modified_kernels_end_to_end := PyamgV.C11X.classicalMod_kernels_refine
+
+/-- `approx_ideal_restriction_pass1` (array model `C11M.airPass1`): `Rp[j] = Σ_{t<j} (|N(c_t)| + 1)` -/
+restate air_pass1_row_pointer_spec := PyamgV.C11X.airPass1_spec
+/-- `approx_ideal_restriction_pass2` (array model `C11M.airPass2`): its rows are the rows `airRow` of
+the C-points in the order of `Cpts`, each of the length pass 1 reserved -/
+restate air_pass2_rows_are_air_rows := PyamgV.C11X.airPass2_rows
+
 /-! ## non-vacuity
 
 1-D Neumann Laplacian on 5 points (zero row sums), C = {0, 4}: the F-point 1 has the strong
@@ -144,6 +210,26 @@ example : C11M.airRow ⟨5, #[0, 2, 5, 8, 11, 13], #[0, 1, 0, 1, 2, 1, 2, 3, 2, 
       #[1, -1, -1, 2, -1, -1, 2, -1, -1, 2, -1, -1, 1]⟩
     ⟨5, #[0, 1, 3, 5, 7, 8], #[1, 0, 2, 1, 3, 2, 4, 3], #[]⟩ #[1, 0, 1, 0, 1] 1 2
     = some [(1, 1 / 2), (3, 1 / 2), (2, 1)] := by decide +kernel
+/-- the same matrices as CSR arrays: the hypotheses of the refinement theorems hold and the array
+models produce the rows of the proof-side operators (F-point 1, splitting C = {0, 4}) -/
+def A5c : N.Csr := ⟨5, #[0, 2, 5, 8, 11, 13], #[0, 1, 0, 1, 2, 1, 2, 3, 2, 3, 4, 3, 4],
+  #[1, -1, -1, 2, -1, -1, 2, -1, -1, 2, -1, -1, 1]⟩
+def S5c : N.Csr := ⟨5, #[0, 1, 3, 5, 7, 8], #[1, 0, 2, 1, 3, 2, 4, 3], #[-1, -1, -1, -1, -1, -1, -1, -1]⟩
+def split5 : Array Int := #[1, 0, 0, 0, 1]
+example : C11M.Valid split5 5 := by unfold C11M.Valid; decide
+example : ∀ i < S5c.n, ∀ jj ∈ S5c.jjs i, N.rdN S5c.aj jj < S5c.n := by decide
+example : ∀ i < S5c.n, N.rdN S5c.ap i ≤ N.rdN S5c.ap (i + 1) := by decide
+example : C11X.rowAt (-1 : Int) (none : Option Rat) (C11M.classicalPass1 5 S5c split5)
+    (C11M.classicalPass2 (1 / 1000000) false A5c S5c split5 (C11M.classicalPass1 5 S5c split5)).1
+    (C11M.classicalPass2 (1 / 1000000) false A5c S5c split5 (C11M.classicalPass1 5 S5c split5)).2 1
+    = [(0, some (1 / 2))] := by decide +kernel
+example : C11X.classicalPOptRow (1 / 1000000) (C11M.isC split5) (C11M.rowOf A5c) (C11M.rowOf S5c) 1
+    = [(0, some (1 / 2))] := by decide +kernel
+example : N.rdQ (C11M.removeFF S5c split5) 2 = 0 ∧ N.rdQ (C11M.removeFF S5c split5) 1 = -1 := by decide +kernel
+example : C11X.directPOptRow (C11M.isC split5) (C11M.rowOf A5c) (C11M.rowOf S5c) 1 = [(0, some 1)] := by
+  decide +kernel
+example : C11X.rowAt (0 : Int) (0 : Rat) (C11M.onePoint 5 S5c split5).1 (C11M.onePoint 5 S5c split5).2.1
+    (C11M.onePoint 5 S5c split5).2.2 3 = [(1, 1)] := by decide +kernel
 end example5
 
 end PyamgV.Props.C11
